@@ -337,6 +337,19 @@ impl Leg for Sessions {
     }
 }
 
+/// one Python iterator object driven by a script (next / for-with-break / list / iter, calls after the end)
+pub struct PySessions;
+impl Leg for PySessions {
+    type Case = super::pysessions::PySession;
+    const NAME: &'static str = "python-call-histories";
+    fn strategy(_tier: Tier) -> BoxedStrategy<Self::Case> {
+        super::pysessions::strategy(false)
+    }
+    fn check(c: &Self::Case) -> Verdict {
+        super::pysessions::check(c)
+    }
+}
+
 pub fn run(ctx: &mut Ctx) {
     let ns = ctx.share(ctx.tier.pick(8_000, 160_000));
     ctx.run_leg::<Sessions>(ns, false, 400);
@@ -349,6 +362,8 @@ pub fn run(ctx: &mut Ctx) {
 
     let nt = ctx.share(ctx.tier.pick(1_600, 40_000));
     ctx.run_leg::<Temporaries>(nt, false, 200);
+    let np = ctx.share(ctx.tier.pick(6_000, 120_000));
+    ctx.run_leg::<PySessions>(np, false, 300);
     let n = ctx.share(ctx.tier.pick(30_000, 400_000));
     ctx.run_leg::<Python>(n, false, 1000);
     let n = ctx.share(ctx.tier.pick(200_000, 4_000_000));
@@ -362,6 +377,7 @@ pub fn replay(leg: &str, case: &serde_json::Value) -> Option<Result<Verdict, Str
         "python" => Some(crate::engine::replay_leg::<Python>(case)),
         "cold-start-threads" => Some(crate::engine::replay_leg::<Cold>(case)),
         "giant-sequences" => Some(crate::engine::replay_leg::<Giants>(case)),
+        "python-call-histories" => Some(crate::engine::replay_leg::<PySessions>(case)),
         "python-equal-length-temporaries" => Some(crate::engine::replay_leg::<Temporaries>(case)),
         "call-histories" => Some(crate::engine::replay_leg::<Sessions>(case)),
         _ => None,
